@@ -25,10 +25,12 @@ struct LogEntry {
     Op op;
     long ret;
     int tid;
+    long inv, resp;  // global stamps taken immediately before the call and after its return
 };
 
 static tlx::Semaphore* g_sem;
 static std::vector<LogEntry>* g_log;
+static long g_stamp;
 static int g_waiting[VS_MAXT][3];  // [t] = {active, delta, slack}, indexed by scheduler tid
 
 static int sem_quiescent_ok() {
@@ -43,42 +45,63 @@ static int sem_quiescent_ok() {
     return 1;
 }
 
-static void sem_check_log(size_t init, const std::vector<LogEntry>& log) {
-    // calls are logged in the order of their critical sections (no scheduling point between the
-    // release of the semaphore's mutex and the log entry), so the log is the linearisation.
-    long v = (long)init;
-    long total = (long)init, handed = 0;
-    for (const LogEntry& e : log) {
+// Linearizability against the counter model, by brute force over the few overlapping calls: is there a total
+// order of the completed calls that respects real time (a call that returned before another was invoked comes
+// first) and in which every call is legal and returns what the model returns?
+//   signal(n): v += n, returns v.   wait(d,s): only if v >= d+s ("returns only after the value was at least
+//   delta plus slack"), v -= d, returns v.   try_acquire(d,s): true and v -= d iff v >= d+s.
+// v never goes negative, which is token conservation.  The final model value must equal value().
+static bool lin_search(const std::vector<LogEntry>& log, std::vector<char>& done, size_t ndone, long v, long final_value, std::string& why) {
+    if (ndone == log.size()) {
+        if (v == final_value) return true;
+        why = vh::fmt("final value()=%ld differs from the model value %ld", final_value, v);
+        return false;
+    }
+    for (size_t i = 0; i < log.size(); ++i) {
+        if (done[i]) continue;
+        bool minimal = true;  // no other pending call returned before this one was invoked
+        for (size_t j = 0; j < log.size() && minimal; ++j)
+            if (!done[j] && j != i && log[j].resp < log[i].inv) minimal = false;
+        if (!minimal) continue;
+        const LogEntry& e = log[i];
+        long nv = v;
+        bool ok = true;
         switch (e.op.kind) {
         case 's':
-        case 'S': {
-            int n = e.op.kind == 's' ? 1 : e.op.a;
-            v += n;
-            total += n;
-            if (e.ret != v) vs_fail("signal-return", vh::fmt("signal returned %ld, model value %ld", e.ret, v).c_str());
+        case 'S':
+            nv = v + (e.op.kind == 's' ? 1 : e.op.a);
+            ok = e.ret == nv;
             break;
-        }
         case 'w':
-            if (v < e.op.a + e.op.b)
-                vs_fail("wait-returned-early", vh::fmt("wait(%d,%d) by T%d returned although value was %ld", e.op.a, e.op.b, e.tid, v).c_str());
-            v -= e.op.a;
-            handed += e.op.a;
-            if (e.ret != v) vs_fail("wait-return", vh::fmt("wait returned %ld, model value %ld", e.ret, v).c_str());
+            ok = v >= e.op.a + e.op.b;
+            nv = v - e.op.a;
+            ok = ok && e.ret == nv;
             break;
         case 't': {
             bool can = v >= e.op.a + e.op.b;
-            if ((e.ret != 0) != can)
-                vs_fail("try_acquire-return", vh::fmt("try_acquire(%d,%d) returned %ld with value %ld", e.op.a, e.op.b, e.ret, v).c_str());
-            if (can) {
-                v -= e.op.a;
-                handed += e.op.a;
-            }
+            ok = (e.ret != 0) == can;
+            if (can) nv = v - e.op.a;
             break;
         }
         }
-        if (handed > total) vs_fail("tokens-conservation", vh::fmt("handed out %ld tokens of %ld", handed, total).c_str());
+        if (!ok || nv < 0) continue;
+        done[i] = 1;
+        if (lin_search(log, done, ndone + 1, nv, final_value, why)) return true;
+        done[i] = 0;
     }
-    if ((long)g_sem->value() != v) vs_fail("final-value", vh::fmt("value()=%zu model=%ld", g_sem->value(), v).c_str());
+    return false;
+}
+
+static void sem_check_log(size_t init, const std::vector<LogEntry>& log) {
+    std::vector<char> done(log.size(), 0);
+    std::string why;
+    if (!lin_search(log, done, 0, (long)init, (long)g_sem->value(), why)) {
+        std::string h;
+        for (auto& e : log) h += vh::fmt("T%d:%s=%ld[%ld,%ld] ", e.tid, e.op.str().c_str(), e.ret, e.inv, e.resp);
+        vs_fail("not-linearizable", vh::fmt("no legal order of the completed calls (init=%zu, final value()=%zu): %s %s", init, g_sem->value(),
+                                            h.c_str(), why.c_str())
+                                        .c_str());
+    }
 }
 
 static void sem_body(size_t init, const std::vector<std::vector<Op>>& scripts) {
@@ -86,6 +109,7 @@ static void sem_body(size_t init, const std::vector<std::vector<Op>>& scripts) {
     std::vector<LogEntry> log;
     g_sem = &sem;
     g_log = &log;
+    g_stamp = 0;
     memset(g_waiting, 0, sizeof g_waiting);
     std::vector<thread> th;
     for (size_t i = 0; i < scripts.size(); ++i) {
@@ -94,6 +118,7 @@ static void sem_body(size_t init, const std::vector<std::vector<Op>>& scripts) {
             int me = vs_self();
             for (const Op& op : *sc) {
                 long r = 0;
+                long inv = ++g_stamp;
                 switch (op.kind) {
                 case 's': r = (long)sem.signal(); break;
                 case 'S': r = (long)sem.signal(op.a); break;
@@ -104,7 +129,7 @@ static void sem_body(size_t init, const std::vector<std::vector<Op>>& scripts) {
                     break;
                 case 't': r = sem.try_acquire(op.a, op.b) ? 1 : 0; break;
                 }
-                log.push_back({op, r, me});
+                log.push_back({op, r, me, inv, ++g_stamp});
             }
         });
     }
